@@ -109,6 +109,40 @@ func runStress(c StressCase) *Violation {
 			}
 		}(ri)
 	}
+	// an Events consumer on its own core: whatever Events delivers must already
+	// be visible (stored, with its serial) through ViewVersion
+	wg.Add(1)
+	go func() {
+		defer wg.Done()
+		var lastSerial uint64
+		for !stop.Load() {
+			select {
+			case cfg := <-d.Events():
+				_, tok := d.ViewVersion()
+				now := serialOf(tok)
+				s, ok := stored.Load(cfg)
+				if !ok {
+					viol.Store(Violation{Tag: "C05", Msg: fmt.Sprintf("Events delivered a config (A=%d) before it was stored as a version: ViewVersion still shows serial %d", cfg.A, now)})
+					return
+				}
+				if s.(uint64) > now {
+					viol.Store(Violation{Tag: "C05", Msg: fmt.Sprintf("Events delivered version %d while ViewVersion still returns serial %d: a reader sees the version go backwards", s.(uint64), now)})
+					return
+				}
+				if s.(uint64) <= lastSerial && lastSerial != 0 {
+					viol.Store(Violation{Tag: "C05", Msg: fmt.Sprintf("Events delivered version %d after version %d", s.(uint64), lastSerial)})
+					return
+				}
+				lastSerial = s.(uint64)
+				if cfg.Limit < 0 {
+					viol.Store(Violation{Tag: "C04", Msg: fmt.Sprintf("Events delivered a config that fails Verify (Limit=%d)", cfg.Limit)})
+					return
+				}
+			default:
+				runtime.Gosched()
+			}
+		}
+	}()
 	rejects := 0
 	for i := 1; i <= c.Installs && viol.Load() == nil; i++ {
 		a, lim := i, i
